@@ -20,7 +20,7 @@ def grammar():
     cmds = set()
     for code in ("G0", "G1"):
         for x in ("", "X50", "X70", "X", "X-5", "X+5", "X.5", "X5.", "X1000000000000000", "X0.0000001", "X5 X50", "X0"):
-            for rest in ("", "Y40", "Y65 Z2", "E5", "E-5", "F0", "F", "E1 E2", "Z", "Y40 E-1", "F3000 E0.0000001"):
+            for rest in ("", "Y40", "Y65 Z2", "E5", "E-5", "F0", "F", "E1 E2", "Z", "Z2", "Y40 E-1", "F3000 E0.0000001"):
                 cmds.add((code + " " + x + " " + rest).strip())
     for code in ("G2", "G3"):
         for end in ("", "X0 Y0", "X-5 Y0", "X10 Y0", "X50 Y40", "X5 Y5 Z2 E1", "X10", "X20 Y10", "X15 Y10"):
@@ -45,7 +45,7 @@ def small_grammar(cmds):
                 if any(t in c for t in ("I5 J0", "R5", "R0", "I0 J0", "R-5", "I-5 J0")) or len(c) < 3:
                     keep.append(c)
         elif code in ("G0", "G1"):
-            if c in ("G1 X50 Y40", "G1 X70 Y65 Z2", "G1 E-5", "G1 E5", "G1 X50 E-5", "G0 X70", "G1 Z", "G1 F", "G0 X",
+            if c in ("G1 X50 Y40", "G1 X70 Y65 Z2", "G1 E-5", "G1 E5", "G1 X50 E-5", "G0 X70", "G1 Z", "G1 Z2", "G1 F", "G0 X",
                      "G1 X50 Y40 E-1", "G1 X1000000000000000", "G1 X0.0000001 E5", "G0 X5 X50 E1 E2"):
                 keep.append(c)
         else:
@@ -53,7 +53,8 @@ def small_grammar(cmds):
     return keep
 
 
-CONFIGS = [(regs, inside) for regs in ((), ("R",), ("D",), ("R", "D")) for inside in (False, True)]
+CONFIGS = [(regs, inside) for regs in ((), ("R",), ("D",), ("R", "D")) for inside in (False, True)] + \
+          [(("R",), "added")]      # index 8: the region is drawn around the nozzle (no episode open yet)
 
 
 def shape_ok(r):
@@ -76,8 +77,13 @@ def base(ci):
     key = (ci, os.getpid())
     if key not in _BASE:
         regs, inside = CONFIGS[ci]
-        w = World(dict(prop="C09", monitors=(), regions=list(regs), key_depth=False, exit="M400\n"))
-        if inside:
+        if inside == "added":
+            w = World(dict(prop="C09", monitors=(), regions=[], key_depth=False, exit="M400\n"))
+            w.step(("RAW", "G1 X50 Y40"))
+            w.step(("ADD", "R", "r"))
+        else:
+            w = World(dict(prop="C09", monitors=(), regions=list(regs), key_depth=False, exit="M400\n"))
+        if inside is True:
             w.step(("RAW", "G1 X50 Y40 E-1" if regs else "G1 X50 Y40"))
             w.step(("RAW", "M204 S5"))
         _BASE[key] = (w.snapshot(), dict(prop="C09", monitors=(), regions=list(regs), key_depth=False))
@@ -165,13 +171,13 @@ def prepare(ctx):
 def enumerate_inputs(ctx):
     full, small = _GRAM["full"], _GRAM["small"]
     tasks = []
-    cfgs = [1, 3, 4, 6] if ctx.quick else list(range(len(CONFIGS)))
+    cfgs = [1, 3, 4, 8] if ctx.quick else list(range(len(CONFIGS)))
     for ci in cfgs:
         for entry in ("hook", "stream"):
             for first in full:
                 tasks.append((ci, entry, first, 1, "full"))
                 if ctx.quick:
-                    if (entry == "hook" and ci in (1, 3)) or (entry == "stream" and ci == 3):
+                    if (entry == "hook" and ci in (3, 8)) or (entry == "stream" and ci == 3):
                         tasks.append((ci, entry, first, 2, "small" if entry == "stream" else "full"))
                     elif entry == "hook":
                         tasks.append((ci, entry, first, 2, "small"))
